@@ -26,7 +26,7 @@ BOUNDS = {
              'autocorrelation T in {2,3}, 1-2 vectors',
     'thorough': 'T=4 vectors on 5 lattices; all point groups with orthogonal matrices pymatgen lists; autocorrelation T<=4',
 }
-OUTSIDE = ['numerical inverse of the spherical map (arcsin/arctan2 uninterpreted: only r and the argument structure are checked)',
+OUTSIDE = ['numerical inverse of the spherical map (arcsin/arctan2 uninterpreted: r and the exact argument structure of both angles are checked)',
            'more than one centre atom', 'hexagonal / trigonal point groups (operation matrices not orthogonal in the Cartesian setting pymatgen uses)']
 ASSUMPTIONS = [
     'bond length well below half the cell width: fractional bond offsets within 0.12',
@@ -219,6 +219,16 @@ def ops_job(params):
                     q = core.ssum([V[t, b, i] * V[t, b, i] for i in range(3)])
                     r = sph[t, b, 2]
                     prove('spherical: r^2 = x^2 + y^2 + z^2', (r ** 2 == q) if isinstance(r, (SRoot, core.SNum)) else False)
+                    # angles: arcsin / arctan2 are uninterpreted, so the *terms* must be degrees(arctan2(y, x)) and degrees(arcsin(z / r))
+                    az, el = sph[t, b, 0], sph[t, b, 1]
+                    DEG, ATAN2, ASIN = symnp._uf('DEGREES', 1), symnp._uf('ATAN2', 2), symnp._uf('ASIN', 1)
+                    x_, y_, z_ = (core._real(V[t, b, i]) for i in range(3))
+                    prove('spherical: azimuth = degrees(arctan2(y, x))', isinstance(az, core.SNum) and az.t.eq(DEG(ATAN2(y_, x_))))
+                    ok_el = False
+                    if isinstance(el, core.SNum) and el.t.decl().name() == 'DEGREES' and el.t.arg(0).decl().name() == 'ASIN':
+                        qp = core.quotient_parts(core.SNum(el.t.arg(0).arg(0)))
+                        ok_el = qp is not None and core.ctx().check(core._bt(~conj([qp[0] == V[t, b, 2], qp[1] * qp[1] == q, qp[1] >= 0]))) == core.z3.unsat
+                    prove('spherical: elevation = degrees(arcsin(z / r))', ok_el)
             sample(dict(group=group, operations=n_ops))
 
     return symbolic_job(params, body, ops_job_replay, timeout_ms=120000)
